@@ -10,11 +10,12 @@ Driver glue for C08.  One line = one whole history:
 * `<ops>`: top-level ops joined by `;` (`-` = none).
 * ops: `L,<delay>,<script>` callLater · `X,<ref>` cancel · `R,<ref>,<secs>` reset ·
   `D,<ref>,<secs>` delay · top level only: `A,<dt>` advance clock · `I` runUntilCurrent ·
-  `T` timeout() · `G` getDelayedCalls().
+  `T` timeout() · `G` getDelayedCalls() · `K` probe of `_cancellations`.
 
 Answer: the trace, events joined by `;`:
   `L<d>,<k>=c<id>|!A` · `X<id>=ok|AC|AD|noid` · `R<id>,<s>=…` · `D<id>,<s>=…` (resolved id) ·
-  `A<dt>` · `I[` … `]` · `r<id>@<now>` · `T=None|<ticks>` · `G=<id>:<getTime>.<id>:<getTime>…` (by id);
+  `A<dt>` · `I[` … `]` · `r<id>@<now>` · `T=None|<ticks>` · `G=<id>:<getTime>.<id>:<getTime>…` (by id) ·
+  `K=<_cancellations>,<cancelled entries in the heap>,<cancelled entries staged>`;
   a trailing `!stuck` if the loop fuel ran out.
 -/
 namespace Twisted.Drv.C08
@@ -34,6 +35,7 @@ def decTop (s : String) : Option Top :=
   | ["I"] => some Top.iterate
   | ["T"] => some Top.timeout
   | ["G"] => some Top.getDelayedCalls
+  | ["K"] => some Top.counter
   | _ => (decOp s).map Top.user
 
 def decScript (s : String) : Option (List Op) :=
@@ -70,6 +72,7 @@ def showEv : Ev → String
   | .timeout (some v) => s!"T={v}"
   | .delayed l =>
     "G=" ++ ".".intercalate ((l.foldr insertSorted []).map fun (id, t) => s!"{id}:{t}")
+  | .counter c h g => s!"K={c},{h},{g}"
 
 def handle (args : List String) : String :=
   match args with
